@@ -735,22 +735,27 @@ META = {
                  'sum algebra, ravel/unravel index arithmetic) + exact integer correspondence of every operator class with '
                  'the implementation evaluated by vm_compute + dense-definition oracle on the implementation + exact residual '
                  'bounds for the solver factories',
-    'level_text': 'Theorems (Coq, unbounded, any commutative ring): apply_tprod computes the tensor-product action '
-                  'Y[a,t] = sum_J prod_k B_k[a_k,j_k] X[J,t] for every number of operands, dense (tensordot) and '
-                  'sparse/LinearOperator (_modek_tensordot_sparse: rollaxis, matricize, apply, reshape back) operands, rectangular '
-                  'shapes, None placeholders and trailing axes, with the stated result shape (apply_tprod_spec, modek_sparse_spec, '
-                  'kron_dense_spec_partial = the core of _apply_kronecker_dense); BaseBlockOperator accumulation equals the sum of '
-                  'the placed blocks and its transpose the transposed matrix (block_spec, block_transpose); BlockDiagonalOperator '
-                  'with _sizes_to_ranges equals block_diag and its transpose (blockdiag_spec, blockdiag_transpose); Diagonal, Identity, '
-                  'Null operators (diag_spec, diag_symmetric, identity_spec, null_spec); SubspaceOperator equals sum P B P^T for any '
-                  'subspace family, and the transposed flag gives the transposed matrix (subspace_spec, subspace_transpose); '
-                  'CSRRowSlice/CSRRowSubset equal the selected rows of the matrix the CSR structure denotes, also with unsorted and '
-                  'duplicate entries (rowslice_spec, rowsubset_spec). NOT theorems (exact correspondence + dense oracle only): the '
-                  'reshape around the Kronecker core, the column-major _apply_kronecker_linops sweeps, BlockOperator grid layout, '
-                  'modek_tprod axis placement, solver factories. The model is tied to /repo by ~1100 (thorough ~6700) random integer '
-                  'cases over all operator classes, storage kinds (ndarray C/F, csr, csc, aslinearoperator, plain LinearOperator), '
-                  'f8/f4, vector/(n,1)/matrix arguments, .T/.H/.T.T, compared exactly inside Coq and against np.kron/np.block/... ; '
-                  'make_solver / make_kronecker_solver / fastdiag_solver are checked by exactly computed residuals against a stated bound.',
+    'level_text': 'Theorems (Coq, unbounded, any commutative ring; 30 theorems, all closed under the global context): apply_tprod '
+                  'computes Y[a,t] = sum_J prod_k B_k[a_k,j_k] X[J,t] for any number of operands, dense (tensordot) and '
+                  'sparse/LinearOperator (_modek_tensordot_sparse) branches, rectangular shapes, None placeholders, trailing axes '
+                  '(apply_tprod_spec, modek_sparse_spec, kron_core_spec); _apply_kronecker_dense equals the flat np.kron matrix times x '
+                  'for vectors, (n,1) and (n,m) arguments (kron_dense_spec[_multi]); the column-major sweeps of _apply_kronecker_linops '
+                  'equal the same product for any number of square factors, vectors and multi-column arguments (kron_linops_spec[_multi], '
+                  'via the rotating mixed-radix invariant linops_inv); KroneckerOperator on either dispatch branch and its transpose '
+                  '(kron_operator_spec[_multi], kron_transpose[_multi]); modek_tprod shape and values on both branches '
+                  '(modek_tprod_shape, modek_tprod_spec); BaseBlockOperator accumulation = sum of placed blocks, transpose '
+                  '(block_spec, block_transpose); BlockDiagonalOperator = block_diag (blockdiag_spec, blockdiag_transpose); BlockOperator '
+                  'layout with null blocks = np.block, and its transpose (grid_block_spec, grid_block_transpose); Diagonal/Identity/Null '
+                  '(diag_spec, diag_symmetric, identity_spec, null_spec); SubspaceOperator = sum P B P^T and transposed flag '
+                  '(subspace_spec, subspace_transpose); CSRRowSlice/CSRRowSubset (rowslice_spec, rowsubset_spec); '
+                  'make_kronecker_solver applies the inverse of kron(B_k) given B_k.Binv_k = I, vectors and several right-hand sides '
+                  '(kron_solver_inverts[_multi], mixed-product property kron_ent_mul); fastdiag_solver applies the inverse of the '
+                  'Kronecker-sum matrix in ANY dimension given the eigh contract K U = M U Lambda, (M U) U^T = I (fastdiag_inverts, vectors). '
+                  'NOT theorems: fastdiag for several right-hand sides, equality of the code\'s left-nested eigenvalue-sum/Kronecker-sum with '
+                  'the recursive forms used in fastdiag_inverts, the LAPACK/SuperLU/eigh contracts themselves. The model is tied to /repo by '
+                  '~1100 (thorough ~4500) random integer cases over all operator classes, storage kinds and argument forms compared exactly '
+                  'inside Coq and against np.kron/np.block/...; operands are compared bitwise with snapshots; solver factories are checked by '
+                  'exactly computed residuals (shared array objects, C/F/transposed layouts) against a stated bound.',
     'level_note': 'Trusted: Coq kernel + vm_compute; hand transcription of the operator classes into Gallina and the reading of numpy '
                   'axis/reshape/F-order conventions (validated by the exact correspondence run); scipy LinearOperator.dot/matvec/matmat '
                   'wrappers; LAPACK/SuperLU/eigh contracts (numerical residual check only). Adjoints are checked for real operands.',
